@@ -87,22 +87,25 @@ func ancestors(p string) []string {
 	return res
 }
 
-type block struct {
-	Listed string          // as given
-	Clean  string          // last entry of the block
-	Set    map[string]bool // clean names of the block
+// item is one listed path that has an entry of its own.
+type item struct {
+	Listed   string          // as given
+	Clean    string          // the listed entry (last of its block)
+	Closure  map[string]bool // the entry and all its dependencies that have an entry
+	Flexible bool            // the closure runs into a dangling hardlink: see expect
 }
 
 type expectation struct {
-	blocks         []block
-	groupA         map[string]bool
+	items          []item
 	missing        []string // listed strings that certainly do not exist
 	slack          []string // listed strings the statement does not classify
 	implicitParent []string // listed strings that have an entry but an ancestor (or a link target's ancestor) without one
+	dangling       []string // listed strings whose hardlink chain ends at a name that has no entry
 }
 
-// closure adds p's dependencies and p to set; implicit is set when an ancestor directory has no entry.
-func (m *model) closure(p string, set map[string]bool, implicit *bool, depth int) {
+// closure adds p's dependencies and p to set; implicit is set when an ancestor directory has
+// no entry, dangling when a hardlink (p or a target in its chain) names a target without entry.
+func (m *model) closure(p string, set map[string]bool, implicit, dangling *bool, depth int) {
 	if depth > 64 || set[p] {
 		return
 	}
@@ -119,22 +122,31 @@ func (m *model) closure(p string, set map[string]bool, implicit *bool, depth int
 		if e.Type == tar.TypeLink {
 			t := gen.Clean(e.Linkname)
 			if m.byClean[t] != nil {
-				m.closure(t, set, implicit, depth+1)
+				m.closure(t, set, implicit, dangling, depth+1)
+			} else {
+				*dangling = true
 			}
 		}
 		set[p] = true
 	}
 }
 
+// expect classifies the listed strings.
+//
+// A listed path whose hardlink chain dangles (the link target has no entry in the archive)
+// is FLEXIBLE: the statement does not say whether such a path "exists" (its entry does) or
+// "does not exist" (it cannot be laid out after its target). Accepted for it: reported back
+// or not; aborting the build only without WithAllowPrioritizeNotFound; any subset of its
+// closure placed in its slot of the leading group (dependencies first). What is never
+// accepted: an input entry that is lost or duplicated.
 func expect(m *model, list []string) *expectation {
-	x := &expectation{groupA: map[string]bool{}}
+	x := &expectation{}
 	for _, l := range list {
 		p := gen.Clean(l)
 		if p == "" {
-			if m.byClean[""] != nil && !x.groupA[""] {
-				x.blocks = append(x.blocks, block{Listed: l, Clean: "", Set: map[string]bool{"": true}})
-				x.groupA[""] = true
-			} else if m.byClean[""] == nil {
+			if m.byClean[""] != nil {
+				x.items = append(x.items, item{Listed: l, Clean: "", Closure: map[string]bool{"": true}})
+			} else {
 				x.slack = append(x.slack, l)
 			}
 			continue
@@ -148,22 +160,15 @@ func expect(m *model, list []string) *expectation {
 			continue
 		}
 		set := map[string]bool{}
-		implicit := false
-		m.closure(p, set, &implicit, 0)
+		implicit, dangling := false, false
+		m.closure(p, set, &implicit, &dangling, 0)
 		if implicit {
 			x.implicitParent = append(x.implicitParent, l)
 		}
-		if x.groupA[p] {
-			continue // already placed: "each at most once"
+		if dangling {
+			x.dangling = append(x.dangling, l)
 		}
-		b := block{Listed: l, Clean: p, Set: map[string]bool{}}
-		for c := range set {
-			if !x.groupA[c] {
-				b.Set[c] = true
-				x.groupA[c] = true
-			}
-		}
-		x.blocks = append(x.blocks, b)
+		x.items = append(x.items, item{Listed: l, Clean: p, Closure: set, Flexible: dangling})
 	}
 	return x
 }
@@ -236,6 +241,9 @@ func judge(c *caseSpec, m *model, exp *expectation, b *built, err error) (res re
 			res.outcome = "aborted although every listed path has an entry (implicit parent)"
 			res.add("existing-path-treated-as-missing:implicit-parent",
 				"Build aborted with %q although every listed path has a tar entry; %q sits under a directory that has no entry of its own", err.Error(), exp.implicitParent)
+		case !c.Allow && len(exp.dangling) > 0 && strings.Contains(err.Error(), "not found"):
+			res.outcome = "aborted on a listed hardlink whose target has no entry (unclassified by the statement)"
+			res.counts["aborts_on_dangling_hardlink"]++
 		case !c.Allow && len(exp.slack) > 0:
 			res.outcome = "aborted on a path the statement does not classify (root / implicit directory / landmark name)"
 			res.counts["aborts_on_unclassified_path"]++
@@ -265,6 +273,8 @@ func judge(c *caseSpec, m *model, exp *expectation, b *built, err error) (res re
 			case contains(exp.missing, rp):
 			case contains(exp.slack, rp):
 				res.counts["unclassified_paths_reported_back"]++
+			case contains(exp.dangling, rp):
+				res.counts["dangling_hardlinks_reported_back"]++
 			case contains(exp.implicitParent, rp):
 				implicitFinding = true
 				res.add("existing-path-treated-as-missing:implicit-parent",
@@ -317,13 +327,29 @@ func judge(c *caseSpec, m *model, exp *expectation, b *built, err error) (res re
 	if !prefetch && lm.Header.Name != specread.NoPrefetchLandmark {
 		res.add("landmark-name", "landmark is spelled %q", lm.Header.Name)
 	}
+	// a prefetch landmark is required as soon as one strictly classified listed path must be
+	// placed (a path that a flexible item might have pulled in before is not counted)
+	mustPlace := false
+	flexAllowed := map[string]bool{}
+	for _, it := range exp.items {
+		if it.Flexible {
+			for n := range it.Closure {
+				flexAllowed[n] = true
+			}
+		}
+	}
+	for _, it := range exp.items {
+		if !it.Flexible && !flexAllowed[it.Clean] {
+			mustPlace = true
+		}
+	}
 	switch {
 	case len(c.List) == 0 && prefetch:
 		res.add("landmark-kind", "empty list but a prefetch landmark was emitted")
-	case len(exp.groupA) > 0 && !prefetch:
+	case mustPlace && !prefetch:
 		res.add("landmark-kind", "files are prioritized but the landmark is %q", lm.Header.Name)
-	case len(c.List) > 0 && len(exp.groupA) == 0:
-		res.counts["nonempty_list_nothing_placed_landmark_"+lm.Header.Name]++
+	case len(c.List) > 0 && !mustPlace:
+		res.counts["nonempty_list_nothing_to_place_landmark_"+lm.Header.Name]++
 	}
 	if prefetch {
 		res.counts["prefetch_landmarks"]++
@@ -381,50 +407,89 @@ func judge(c *caseSpec, m *model, exp *expectation, b *built, err error) (res re
 		// position of a no-prefetch landmark is not judged; everything else keeps the input order
 		A, B = nil, append(append([]string{}, A...), B...)
 	}
-	if prefetch || len(exp.groupA) > 0 {
+	// The leading group is matched item by item, in list order, against what has been placed
+	// so far: a strict item contributes exactly {its closure} minus {placed}, with the listed
+	// entry last; a flexible item (dangling hardlink chain) contributes any run of entries out
+	// of its closure. Inside a block every dependency precedes its dependant.
+	placed := map[string]bool{}
+	depOrder := func(got []string) {
+		gs := map[string]int{}
+		for i, n := range got {
+			gs[n] = i + 1
+		}
+		for i, n := range got {
+			if n != "" {
+				for _, a := range ancestors(n) {
+					if j := gs[a]; j > 0 && j-1 > i {
+						res.add("dependency-order", "%q precedes its parent directory %q (block %q)", n, a, got)
+					}
+				}
+			}
+			if e := m.byClean[n]; e != nil && e.Type == tar.TypeLink {
+				if j := gs[gen.Clean(e.Linkname)]; j > 0 && j-1 > i {
+					res.add("dependency-order", "hardlink %q precedes its target %q (block %q)", n, gen.Clean(e.Linkname), got)
+				}
+				res.counts["hardlinks_in_prioritized_group"]++
+			}
+		}
+	}
+	if prefetch {
 		k := 0
-		for _, bl := range exp.blocks {
-			if k+len(bl.Set) > len(A) {
-				res.add("prioritized-after-landmark", "the group before the landmark ends before the block of listed %q %s is complete (group: %q)", bl.Listed, setNames(bl.Set), A)
+		for _, it := range exp.items {
+			if it.Flexible {
+				start := k
+				for k < len(A) && it.Closure[A[k]] && !placed[A[k]] {
+					placed[A[k]] = true
+					k++
+				}
+				got := A[start:k]
+				depOrder(got)
+				for i, n := range got {
+					if n == it.Clean && i != len(got)-1 {
+						res.add("prioritized-order", "listed %q is not the last entry of its block %q", it.Listed, got)
+					}
+				}
+				res.counts["flexible_blocks(dangling hardlink)"]++
+				res.counts["entries_placed_for_dangling_hardlinks"] += len(got)
+				continue
+			}
+			if placed[it.Clean] {
+				continue // already placed: "each at most once"
+			}
+			set := map[string]bool{}
+			for n := range it.Closure {
+				if !placed[n] {
+					set[n] = true
+				}
+			}
+			if k+len(set) > len(A) {
+				res.add("prioritized-after-landmark", "the group before the landmark ends before the block of listed %q %s is complete (group: %q)", it.Listed, setNames(set), A)
 				break
 			}
-			got := A[k : k+len(bl.Set)]
-			gs := map[string]int{}
-			for i, n := range got {
-				gs[n] = i + 1
-			}
-			okSet := len(gs) == len(bl.Set)
-			for n := range bl.Set {
-				if gs[n] == 0 {
+			got := A[k : k+len(set)]
+			okSet := true
+			seenIn := map[string]bool{}
+			for _, n := range got {
+				if !set[n] || seenIn[n] {
 					okSet = false
 				}
+				seenIn[n] = true
 			}
 			if !okSet {
-				res.add("prioritized-order", "positions %d..%d before the landmark hold %q; the statement puts there the block of listed %q = %s", k, k+len(got)-1, got, bl.Listed, setNames(bl.Set))
+				res.add("prioritized-order", "positions %d..%d before the landmark hold %q; the statement puts there the block of listed %q = %s", k, k+len(got)-1, got, it.Listed, setNames(set))
 				break
 			}
-			if got[len(got)-1] != bl.Clean {
-				res.add("prioritized-order", "listed %q is not preceded by all of its parents/link targets: block %q", bl.Listed, got)
+			if got[len(got)-1] != it.Clean {
+				res.add("prioritized-order", "listed %q is not preceded by all of its parents/link targets: block %q", it.Listed, got)
 				break
 			}
-			for i, n := range got {
-				if n != "" {
-					for _, a := range ancestors(n) {
-						if j := gs[a]; j > 0 && j-1 > i {
-							res.add("dependency-order", "%q precedes its parent directory %q (block %q)", n, a, got)
-						}
-					}
-				}
-				if e := m.byClean[n]; e != nil && e.Type == tar.TypeLink {
-					if j := gs[gen.Clean(e.Linkname)]; j > 0 && j-1 > i {
-						res.add("dependency-order", "hardlink %q precedes its target %q (block %q)", n, gen.Clean(e.Linkname), got)
-					}
-					res.counts["hardlinks_in_prioritized_group"]++
-				}
+			depOrder(got)
+			for n := range set {
+				placed[n] = true
 			}
 			res.counts["blocks_verified"]++
-			res.counts["dependencies_pulled_in"] += len(bl.Set) - 1
-			k += len(bl.Set)
+			res.counts["dependencies_pulled_in"] += len(set) - 1
+			k += len(set)
 		}
 		if len(res.fs) == 0 && k < len(A) {
 			res.add("non-prioritized-before-landmark", "entries %q sit before the landmark but belong to no listed path", A[k:])
@@ -436,13 +501,10 @@ func judge(c *caseSpec, m *model, exp *expectation, b *built, err error) (res re
 	var rest []string
 	for _, in := range m.seq {
 		cl := gen.Clean(in.Name)
-		if prefetch && exp.groupA[cl] {
+		if placed[cl] {
 			continue
 		}
 		rest = append(rest, cl)
-	}
-	if !prefetch && len(exp.groupA) == 0 {
-		// nothing prioritized: all input entries in input order
 	}
 	if strings.Join(rest, "\x00") != strings.Join(B, "\x00") {
 		i := 0
